@@ -137,6 +137,9 @@ fn kappa(d: &[C64], n: usize) -> f64 {
     if l == 0 {
         return 1.0;
     }
+    // (x^k mod d does not depend on the scale of d: normalise, the complex division squares the modulus)
+    let sc = d.iter().fold(0.0f64, |m, z| m.max(z.re.abs()).max(z.im.abs()));
+    let d: Vec<C64> = d.iter().map(|z| C64::new(z.re / sc, z.im / sc)).collect();
     let dl = d[l];
     let mut cur = vec![C64::new(0.0, 0.0); l];
     cur[l - 1] = C64::new(1.0, 0.0);
@@ -554,7 +557,19 @@ pub fn stages(ctx: &Ctx) -> Vec<Stage> {
         } else {
             Kind::ZeroDivisor(rng.below(9))
         };
-        let c = gen_case(&mut rng, complex, kind);
+        let mut c = gen_case(&mut rng, complex, kind);
+        // one general or exact-multiple case in twenty: dividend and divisor both multiplied by 2^513 ... 2^515
+        // (coefficients of 2.7e154 ... 1e155: every quantity of the division is representable - the quotient is
+        // unchanged, the remainder scales - but a product of two coefficients is not)
+        // (real field only: num_complex divides by |z|^2, which overflows for such operands whatever the caller does)
+        if i % 20 == 2 && !complex && matches!(c.kind, Kind::General | Kind::ExactMultiple) && c.a.iter().chain(c.d.iter()).all(|z| z.norm() < 1e3 && (z.norm() == 0.0 || z.norm() > 1e-6)) {
+            let sc = 2f64.powi(513 + (i / 20 % 3) as i32);
+            for z in c.a.iter_mut().chain(c.d.iter_mut()) {
+                *z *= sc;
+            }
+            c.shape.push_str(" x 2^513..515");
+            rep.count("divisions_with_all_coefficients_near_1e155", 1);
+        }
         run_dyn(rep, &c);
     }));
     st
@@ -571,6 +586,7 @@ pub fn thresholds(ctx: &Ctx, rep: &Report) -> Vec<Threshold> {
         t.push(Threshold { what: format!("divisions by the zero polynomial ({})", fld), required: q(100.0, 3_000.0), observed: rep.counter(&format!("zero-polynomial/{}", fld)) as f64 });
     }
     t.push(Threshold { what: "exact multiples with a well-conditioned remainder map (kappa <= 10), where 'zero remainder' is sharp".into(), required: q(200.0, 8_000.0), observed: rep.counter("exact_multiple/kappa<=10") as f64 });
+    t.push(Threshold { what: "divisions with every coefficient of dividend and divisor near 1e155".into(), required: q(300.0, 3_000.0), observed: rep.counter("divisions_with_all_coefficients_near_1e155") as f64 });
     t.push(Threshold { what: "divisions whose dividend carries the zero tolerance 0.0".into(), required: q(400.0, 4_000.0), observed: rep.counter("dividends_with_zero_tolerance_exactly_0") as f64 });
     t.push(Threshold { what: "divisions by the zero polynomial answered with Err".into(), required: q(200.0, 6_000.0), observed: rep.counter("zero-divisor/err_returned") as f64 });
     t
